@@ -45,7 +45,12 @@ func (p *Program) userFieldSort(name string) (string, bool) {
 
 func (v *Verifier) addLemmas(verifDir string) {}
 func (v *Verifier) addSweeps() {
-	if v.Prop == "C20" {
+	switch v.Prop {
+	case "C20":
 		v.addFrameObligations()
+	case "C01":
+		v.addEffectSweep("no_uncontracted_uid_write", v.Prog.uidWriteSites)
+	case "C17":
+		v.addEffectSweep("no_uncontracted_sink", v.Prog.sinkSites)
 	}
 }
